@@ -110,4 +110,20 @@ Definition Tent (r : lres) (a b : nat) : C :=
   else if (a =? S b) then ent (roff r) b
   else o.(c0).
 
+
+(* finite sums and linear combinations  sum_a c_a q_a  (a dense matrix-vector product Q c) *)
+Fixpoint csum (n : nat) (f : nat -> C) : C := match n with 0 => o.(c0) | S k => o.(cadd) (csum k f) (f k) end.
+Fixpoint vcomb (n : nat) (c : nat -> C) (q : nat -> V) : V :=
+  match n with 0 => o.(vzero) | S k => o.(vadd) (vcomb k c q) (o.(vscale) (c k) (q k)) end.
+
+(* lanczos_eigs: Q, T := lanczos(...); eigvals, eigvectors := eigh(T); idx := argsort(eigvals); (eigvals[idx], Q @ eigvectors[:, idx]).
+   eigh and argsort are external (LAPACK / NumPy): oracles *)
+Definition lanczos_eigs (eigh : nat -> (nat -> nat -> C) -> (nat -> C) * (nat -> nat -> C)) (argsort : nat -> (nat -> C) -> nat -> nat)
+    (n : nat) (v : V) (max_iters : nat) (tol : C) : (nat -> C) * (nat -> V) :=
+  let r := lanczos1 n v max_iters tol in
+  let k := length (rQ r) in
+  let e := eigh k (Tent r) in
+  let idx := argsort k (fst e) in
+  (fun j => fst e (idx j), fun j => vcomb k (fun a => snd e a (idx j)) (fun a => nth a (rQ r) o.(vzero))).
+
 End Model.
